@@ -1210,40 +1210,46 @@ theorem fit_emits_wf (S : Schema) (hdet : detB S = true) (hfill : S.fillersOKB =
   subst hst
   exact aroundShape_of F T G1 G2 sl' ins b hw h1 h2 h3
 
-/-! ### payload validity and no-raise: the statements aimed at, and the invariant they need (not proved)
+/-! ### payload validity and no-raise: what is proved, the statements aimed at, and the invariants behind them
 
-FULL STATEMENTS AIMED AT:
-`fit_emits_valid_payload` : hypotheses of `fit_emits_wf` → closed nodes of the request slice valid →
-  `openValid S sl'.openStart sl'.openEnd sl'.content` for the emitted slice `sl'` (every node the Fitter
-  closed is valid, the nodes still open carry canonical marks);
+PROVED (this section):
+* `delete_emits_valid_payload`, `deleteRange_emits_valid_payload` — deletions: the emitted slice is `openValid`;
+  `delete_emits_payloadValid` — also `C01.PayloadValid` of a deletion's replace-around answer (the slice with the gap
+  content in place), with `delete_around_is_move` (`insert = 0`, gap `[to, to.end())`, no structure flag);
+* `insertInline_emits_valid_payload` — closed slices of valid leaf / text nodes (typing, `insert`, `replace_with` of inline
+  content): the loop places nodes, possibly inside wrappers; invariant `VInv` (Proofs/FitPayload.lean), `payloadInv_step`;
+* `fit_emits_valid_payload_of_inv` — **every** request: payload validity from the decidable invariant
+  `FitState.validB` (PM/FitGuards.lean) at the end of the loop (`fitEndInv`); `close` is handled in general
+  (`closeFit_vinv`, with `closeLevel_move_depth`: `close` continues at a position that is at least as deep as the close level);
+* `fit_around_shape`, `fit_around_gap_valid` — every replace-around answer: gap `[to, to.end())`, a closed slice of valid
+  nodes of the document, structure flag not set.
+
+FULL STATEMENTS AIMED AT (not proved):
+`fit_emits_valid_payload` : hypotheses of `fit_emits_wf` → `closableB` → the request slice cut from a valid document (closed
+  nodes valid, the children of its spine nodes carrying marks their parent allows) →
+  `openValid S sl'.openStart sl'.openEnd sl'.content` for the emitted slice `sl'`;
 `fit_no_raise` : … `→ sl.noPartialNode S → replaceStep S doc f t sl ≠ .error .raises`, and with
   `fitLoop_terminates` the total `replaceStep_total`.
+What is missing for the first is the invariance of `VInv` / `validB` under `place_nodes` when the unplaced slice is open:
+the validity of `close_node_start`'s results (fill prefix + children accepted; needs the request slice's validity carried
+along the unplaced slice through `drop_from_fragment` / `open_more`) and `LevelR` for the levels `place_nodes` pushes for the
+open end (`pushOpenEnd`; their coherence is `pushOpenEnd_coh`).  The driver evaluates `validB` after **every** iteration of
+every generated request (op `fitEmit`, counter "validity invariant after every iteration"): true on all runs (about 4 900
+runs of the loop per seed, closed and open slices, bundled-family and random schemas), and the tie checks the real step's
+payload with the independent validator whenever the hypotheses of `fit_emits_valid_payload_of_inv` hold.
 
-The invariant both need is `FitState.coherentB` (PM/Fitter.lean, decidable): walking the last-child
-chain of `placed`, `frontier[i].ty` is the type of the node open at level `i` and `frontier[i].match` is
-the state of that type's automaton after the children counted there — from the state
-`Fitter.__init__` computed for the levels whose open node is still the document's (a prefix `i ≤ g`
-of the frontier; for `i < depth(from)` the first child, which that state already counts, is skipped),
-from the start state over all children for the levels the Fitter opened.  It is evaluated by the driver
-after every iteration of every generated request (op `fitEmit`, counter "frontier coherent with placed
-over the loop"): true on all bundled-family runs and on all runs of a random-schema search
-(about 6 200 + 4 400 runs of the loop).  A first formulation without the ghost level `g` was refuted by that
-search at once (a level closed and re-opened by `place_nodes` counts from the start state again).
-With it: `close_frontier_node`'s `fill_before(…, True)` runs from the state after the real children, so the
-closed node's content is accepted (`fillBeforeTypes_exact`) — validity of closed nodes; and
-`content_match_at(child_count)` on the re-opened node of `place_nodes` is `run 0 (types kids)`, which
-succeeds exactly when the node is not a partial node (`Slice.noPartialNode`).  `coherentB` IS an
-invariant of the loop: `coherent_invariant` below (Proofs/FitCoherent.lean).  Payload validity is PROVED FOR
-DELETIONS (`delete_emits_valid_payload`, `deleteRange_emits_valid_payload` below; Proofs/FitValid.lean:
-fillers valid, the chain of the document's nodes `PureV`, `closeFit_valid` = closing + the close level's
-filling + the re-opening loop `openValid_open`, the final `while`).  For slices that are placed the
-pieces in place are: a Fitter-opened node is accepted when it is closed (`levelOK_close_accepts`: coherent
-match + `fillBeforeTypes_sound`), mark filtering keeps validity (`checkNode_withMarks_allowed`,
-`allowsMarks_allowedMarks`, `canonicalMarks_allowedMarks`); still missing: `closeNodeStart`'s own validity for
-start-open nodes (fill prefix + children accepted; needs the request slice's `openValid` carried along the
-unplaced slice through `drop_from_fragment` / `open_more`), the per-level bookkeeping "all closed
-children valid, marks allowed by the level's type" next to `Coh`, and the assembly of `openValid` at the
-end; then `fit_no_raise` (its raise sites become unreachable from the same invariants). -/
+The two invariants: `FitState.coherentB` (PM/Fitter.lean; `coherent_invariant` below, Proofs/FitCoherent.lean) — walking the
+last-child chain of `placed`, `frontier[i].ty` is the type of the node open at level `i` and `frontier[i].match` is the state of
+that type's automaton after the children counted there (from the state `Fitter.__init__` computed for the levels `i ≤ g`
+whose open node is still the document's, from the start state over all children for the levels the Fitter opened; a first
+formulation without the ghost level `g` was refuted by the random-schema search: a level closed and re-opened by
+`place_nodes` counts from the start state again).  And `FitState.validB` / `VInv` — the same walk, recording validity:
+below `g` single nodes with canonical marks (`PureV`), at `g` closed children valid up to the document's start spine
+(`leftOpenValid`), above `g` valid closed children, marks allowed by the level's type, the match = the run from the start
+state (`LevelR`); `close_frontier_node`'s `fill_before(…, True)` then completes a level above `g` to valid content
+(`close_top_valid`: `fillBeforeTypes_sound` + `closableB`), and a level `≤ g` stays on the start spine, where only canonical
+marks are asked.  `content_match_at(child_count)` on the re-opened node of `place_nodes` is `run 0 (types kids)`, which
+succeeds exactly when the node is not a partial node (`Slice.noPartialNode`) — the raise site `fit_no_raise` has to exclude. -/
 
 /-- **`delete_emits_valid_payload`** — the payload of every step `replace_step` emits for a deletion on a
     valid document is valid in the sense of C01 (`openValid`, Proofs/ReplaceValid.lean): every node off the
